@@ -3,7 +3,8 @@
     of the header's documentation and of the property text, without buffers).  Only property theorems here. *)
 From Coq Require Import NArith ZArith List Bool.
 From M17 Require Import Bits ImplCRC ConstsCrc ImplFrameDecoder SpecFrames FrameDecoderInst ImplViterbi SpecConv
-  LemmasFD_Hidden LemmasFD_Refine LemmasFD_Inst LemmasFD_Consts LemmasFD_Examples LemmasFD_C08 Properties_C02.
+  LemmasFD_Hidden LemmasFD_Refine LemmasFD_Inst LemmasFD_Consts LemmasFD_Examples LemmasFD_C08 LemmasFD_Since
+  LemmasFD_SinceInst Properties_C02.
 Import ListNotations.
 
 (** 1. No hidden state, one call: two decoders in the same visible state (mode, LICH bitmap, LSF assembly buffer)
@@ -85,8 +86,75 @@ Theorem c08_decoder_constants : fd_consts_statement.
 Proof. exact fd_consts_ok. Qed.
 Print Assumptions c08_decoder_constants.
 
+(** 5. History-level statements, for every history from every decoder state with any buffer contents
+       ([fd_at P h s i]: the i-th input of h and the i-th observation of the decoder started in s satisfy P).
+
+       "Packet frames are accepted only after a packet-type LSF": if call k delivers a BASIC/FULL packet callback (on a
+       packet-sync frame), then either the decoder was in a packet mode at the start and every earlier call was a packet
+       frame without the EOF bit, or some earlier call j was an LSF-sync frame that decoded CRC-valid with a packet TYPE
+       (TYPE bit 0 clear, exactly one LSF callback, mode BASIC/FULL afterwards) and every call between j and k was a packet
+       frame without the EOF bit (PACKET_INCOMPLETE, one packet callback). *)
+Theorem c08_packet_only_after_packet_lsf : forall (h : list input) (s : fd_state) (k : nat), fd_hid_ok s ->
+  fd_at packet_emit h s k ->
+  (is_packet_mode (sm_mode (fd_abs s)) = true /\ forall i, i < k -> fd_at packet_cont h s i) \/
+  (exists j, j < k /\ fd_at (packet_arm spec_crc_ok) h s j /\ forall i, j < i < k -> fd_at packet_cont h s i).
+Proof. exact fd_packet_only_after_packet_lsf. Qed.
+Print Assumptions c08_packet_only_after_packet_lsf.
+
+(** "Stream frames are payload-decoded once the decoder is in stream mode (entered by a voice-stream LSF or a completed LICH
+       reassembly)": a STREAM callback at call k implies stream mode at the start with only decoded stream frames before, or an
+       earlier call j that entered stream mode - an LSF-sync frame, CRC-valid, TYPE bits stream+voice, or a stream-sync frame
+       completing a CRC-valid reassembly (LICH and LSF callbacks, cost 0) - with only decoded stream frames in between. *)
+Theorem c08_stream_only_after_link_setup : forall (h : list input) (s : fd_state) (k : nat), fd_hid_ok s ->
+  fd_at stream_emit h s k ->
+  (sm_mode (fd_abs s) = MStream /\ forall i, i < k -> fd_at stream_cont h s i) \/
+  (exists j, j < k /\ fd_at (stream_arm spec_crc_ok) h s j /\ forall i, j < i < k -> fd_at stream_cont h s i).
+Proof. exact fd_stream_only_after_link_setup. Qed.
+Print Assumptions c08_stream_only_after_link_setup.
+
+(** Position-wise rules in every history: BERT sync always decodes BERT (mode BERT, OK, one BERT callback whose cost is the
+       reported cost); LSF sync gives OK with exactly one LSF callback, or FAIL in link-setup mode with none; the cost
+       out-parameter is left unassigned only when a stream/packet sync is not valid in the current mode, and then the call
+       fails, makes no callback and leaves the decoder in link-setup mode. *)
+Theorem c08_history_sync_rules : forall (h : list input) (s : fd_state) (k : nat) (x : input) (o : obs), fd_hid_ok s ->
+  nth_error h k = Some x -> nth_error (fst (fd_run s h)) k = Some o ->
+  (i_sync x = SBert -> o_mode o = MBert /\ o_res o = ROk /\
+                       exists cb, o_cbs o = [cb] /\ cb_type cb = FBert /\ o_cost o = Some (cb_cost cb)) /\
+  (i_sync x = SLsf -> (o_res o = ROk /\ exists cb, o_cbs o = [cb] /\ cb_type cb = FLsf) \/
+                      (o_res o = RFail /\ o_mode o = MLsf /\ o_cbs o = [])) /\
+  (o_cost o = None -> o_mode o = MLsf /\ o_res o = RFail /\ o_cbs o = [] /\ (i_sync x = SStream \/ i_sync x = SPacket)).
+Proof. exact fd_history_sync_rules. Qed.
+Print Assumptions c08_history_sync_rules.
+
+(** every LSF callback in every history carries bytes whose M17 CRC is zero *)
+Theorem c08_lsf_callbacks_crc_valid : forall (h : list input) (s : fd_state) (k : nat) (o : obs) (cb : callback), fd_hid_ok s ->
+  nth_error (fst (fd_run s h)) k = Some o -> In cb (o_cbs o) -> cb_type cb = FLsf -> N.eqb (crc30 (cb_bytes cb)) 0 = true.
+Proof. exact fd_lsf_callbacks_crc_valid. Qed.
+Print Assumptions c08_lsf_callbacks_crc_valid.
+
 (** non-vacuity: fd_init satisfies the well-formedness hypothesis; a dirtied decoder differs from it only in hidden parts *)
 Example c08_init_ok : fd_hid_ok fd_init.
 Proof. exact fd_init_ok. Qed.
 Example c08_example_reassembly : fd_example_reassembly_ok = true.
 Proof. vm_compute. reflexivity. Qed.
+
+(* a packet transmission decoded by the model: packet-type LSF, a packet frame, the last packet frame (EOF) *)
+Example c08_example_packet_history : fd_example_packet_ok = true.
+Proof. vm_compute. reflexivity. Qed.
+(* ... in which the hypothesis of c08_packet_only_after_packet_lsf holds at k = 2 *)
+Example c08_packet_emit_instance : fd_at packet_emit ex_packet_history fd_init 2.
+Proof.
+  assert (H : fd_example_packet_ok = true) by (vm_compute; reflexivity).
+  unfold fd_example_packet_ok in H.
+  destruct (fst (fd_run fd_init ex_packet_history)) as [|[[[m0 r0] c0] l0] [|[[[m1 r1] c1] l1] [|[[[m2 r2] c2] l2] [|? ?]]]] eqn:E;
+    try discriminate H.
+  destruct m0; try discriminate H. destruct r0; try discriminate H. destruct c0 as [z0|]; try discriminate H.
+  destruct z0; try discriminate H. destruct l0 as [|cb0 [|? ?]]; try discriminate H.
+  destruct m1; try discriminate H. destruct r1; try discriminate H. destruct c1 as [z1|]; try discriminate H.
+  destruct z1; try discriminate H. destruct l1 as [|cb1 [|? ?]]; try discriminate H.
+  destruct m2; try discriminate H. destruct r2; try discriminate H. destruct c2 as [z2|]; try discriminate H.
+  destruct z2; try discriminate H. destruct l2 as [|cb2 [|? ?]]; try discriminate H.
+  unfold fd_at, at_. rewrite E. eexists _, _. split; [reflexivity|]. split; [reflexivity|].
+  split; [reflexivity|]. exists cb2. split; [left; reflexivity|].
+  destruct (cb_type cb0), (cb_type cb1), (cb_type cb2); try reflexivity; rewrite ?andb_false_r in H; discriminate H.
+Qed.
